@@ -99,4 +99,12 @@ ENTRIES = {
         "note": TB + "; diagnostics compared with an explicit rounding tolerance",
         "technique": "runtime monitoring: clone-and-export oracle on size/emptiness queries at every step + textbook-formula oracle for diagnostics",
     },
+    "C19": {
+        "text": "Feeds every public model constructor with generated inputs of every invalid class named in the statement (and valid ones) and requires that "
+                "each Ok(model) passes the exact C03 validity checker, that a lone symbol with the whole mass is never accepted and that valid infer_last input is "
+                "accepted at every precision; clean errors and unwinding panics count as rejection, aborts (std UB checks, SIGSEGV) are attributed to the input by "
+                "the driver. Runs in dbg (UB + overflow checks) and rel (where a zero in a NonZero shows as None through the niche).",
+        "note": TB + "; the Python front end named as a mechanism is not exercised (its constructors forward to the Rust ones; Miri cannot cross the FFI)",
+        "technique": "runtime monitoring: negative-input generation per constructor with the exact reference-model validity checker as acceptance oracle; std UB/overflow checks",
+    },
 }
